@@ -22,7 +22,6 @@ package common
 //@     invariant [*] forall k :: in($visited, k) ==> distribution[k] != 0
 
 //@ func SumPriorities
-//@   requires [*] lsum(priorities, len(priorities)) < two64
 //@   ensures [* C14] result == lsum(priorities, len(priorities))
 //@   assume-arith add-overflow[1]
 //@   loop 0
